@@ -88,13 +88,13 @@ CHECKS["C15"] = dict(
 CHECKS["C14"] = dict(
     category="exploration", design_ref="5 C14", engine="tlc+sfsim",
     technique="TLA+ spec (SnapshotFile.tla: layout, size formula, expectation table) as oracle for cases executed on the real snapshot writer/reader/validator/shrink code",
-    text="For block sizes 3..8 every payload length 0..2B+2, seeded write/read segmentations, every single-bit flip and every cut of the block stream; for the production constants payloads 0, 1, a few KB, around one and two 2 MB blocks, with and without compression, seeded segmentations and chunkings of the validator, flips at every region boundary of header block / blocks / tail plus random offsets, cuts, and shrink: TLC checks size = formula, read-back identical, validator accepts exactly the writer's output, a perturbation is refused or harmless, a shrunk file loads as empty.",
+    text="For block sizes 3..8 every payload length 0..2B+2, seeded write/read segmentations, every single-bit flip and every cut of the block stream; for the production constants payloads 0, 1, a few KB, around one and two 2 MB blocks, with and without compression, seeded segmentations and chunkings of the validator, flips at every region boundary of header block / blocks / tail plus random offsets, every bit of the tail record for files whose stored size is a power of two (plus one block), cuts, version 1 files on the read side, crafted payloads whose one-bit-flipped form has CRC32 zero (both versions), and shrink: TLC checks size = formula, read-back identical, validator accepts exactly the writer's output, a perturbation is refused or harmless, a shrunk file loads as empty.",
     note="Trusted: TLC, the sfsim driver (harness/rsm/sfsim_test.go); CRC32 strength is assumed, not modelled; the bit-level sweep is execution of the real code with the specification as the expectation table (DESIGN.md section 6). Recorded findings (header block not protected) are reported as KNOWN-FINDING.")
 
 CHECKS["C17"] = dict(
     category="model_checking", design_ref="5 C17",
     technique="TLA+ bounded-progress predicate (RaftSys.tla ProgressPred) evaluated by TLC on real executions: seeded fault prefix + scripted attack prefixes, then a fair fault-free period on the real raft code; quiesce and the rate limiter: TLA+ specifications (Quiesce.tla, RateLimit.tla) model-checked (resume / release lemmas) and bound to the real objects by trace evaluation",
-    text="After a seeded fault prefix (loss, duplication, partitions incl. single cut links, crashes, restarts, membership changes, transfers, snapshots/compaction) every started replica runs, no message is lost, replicas get pairwise distinct election timeouts and a fair scheduler runs 2x40 (thorough 2x60) rounds with a probe proposal and a probe linearizable read at every replica; TLC then requires: a leader exists, every running member is in its term and caught up to its commit index (by log or snapshot), every probe completed. All PreVote/CheckQuorum settings; every step is also checked against Raft.tla. Supporting mechanisms as sequential objects: the real quiesceState (quiesce.go) and the real InMemRateLimiter (internal/server/rate.go) are driven by seeded sequences (ticks, recorded messages, Quiesce messages; sizes around the 70% / 100% thresholds, follower reports, resets); TLC recomputes every step with Quiesce.tla / RateLimit.tla and evaluates the lemmas that MCQuiesce / MCRateLimit establish exhaustively: activity always ends quiesce, a heartbeat wakes a shard that has been quiescent for an election time-out, an idle shard goes quiescent and announces it; rate limiting starts only with cause and is released once sizes are below 70% and the hysteresis window has passed.",
+    text="After a seeded fault prefix (loss, duplication, partitions incl. single cut links, crashes, restarts, membership changes, transfers, snapshots/compaction) every started replica runs, no message is lost, replicas get pairwise distinct election timeouts and a fair scheduler runs 2x40 (thorough 2x60) rounds with a probe proposal and a probe linearizable read at every replica; TLC then requires: a leader exists, every running member is in its term and caught up to its commit index (by log or snapshot), every probe completed. All PreVote/CheckQuorum settings; every step is also checked against Raft.tla. Supporting mechanisms as sequential objects: the real quiesceState (quiesce.go) and the real InMemRateLimiter (internal/server/rate.go) are driven by seeded sequences (ticks, recorded messages, Quiesce messages; sizes around the 70% / 100% thresholds, follower reports, resets); TLC recomputes every step with Quiesce.tla / RateLimit.tla and evaluates the lemmas that MCQuiesce / MCRateLimit establish exhaustively: activity always ends quiesce, a heartbeat wakes a shard that has been quiescent for an election time-out, an idle shard goes quiescent and announces it; rate limiting starts only with cause and is released once sizes are below 70% and the hysteresis window has passed. Real NodeHosts with Config.Quiesce (nhsim mode quiesce, QuiesceHostTrace.tla): after every replica went quiescent, proposals / ReadIndex / membership queries on a connected shard are served (paced attempts, 20 s) and never time out before half of the requested deadline; on a replica whose peers crashed or were partitioned away while the shard slept they end within deadline + 3 s and never complete; after the heal they are served again.",
     note=RAFT_NOTE + " Progress within the stated bound, not unbounded liveness; quiesce and the rate limiter are decided as sequential objects, not inside rsim; replicas whose removal was applied are stopped before the fair period (a removed replica that keeps running disrupts elections without PreVote/CheckQuorum: known Raft behaviour).")
 
 NH_NOTE = ("Trusted: TLC, the Go toolchain, the nhsim harness (in-process NodeHosts over lni/vfs strict MemFS, a recording ITransport and "
@@ -183,8 +183,8 @@ def main():
             {"name": "tlc+rsim", "path": "/verif/lib/raftfamily.py",
              "serves_properties": ["C02", "C03", "C06", "C07", "C17", "C18"],
              "kind_free_text": "TLC exhaustive model checking of MCRaft + TLC trace validation (RaftTrace) of executions of the real internal/raft recorded by the rsim harness"},
-            {"name": "tlc+nhsim", "path": "/verif/lib/nhfamily.py", "serves_properties": ["C01", "C03", "C04", "C07", "C08", "C11", "C16", "C20"],
-             "kind_free_text": "TLC model checking (MCPipeline, MCClientHistory) + TLC evaluation (ClientHistoryTrace, PipelineTrace, SMContractTrace) of event streams recorded from in-process clusters of real NodeHosts (harness/root/nhsim_*_test.go)"},
+            {"name": "tlc+nhsim", "path": "/verif/lib/nhfamily.py", "serves_properties": ["C01", "C03", "C04", "C07", "C08", "C11", "C16", "C17", "C20"],
+             "kind_free_text": "TLC model checking (MCPipeline, MCClientHistory) + TLC evaluation (ClientHistoryTrace, PipelineTrace, SMContractTrace, SnapshotDirTrace, ImportTrace, NodeSafetyTrace, MemberTrace, CompactionTrace, QuiesceHostTrace) of event streams recorded from in-process clusters of real NodeHosts (harness/root/nhsim_*_test.go)"},
             {"name": "tlc+qssim/rlsim", "path": "/verif/lib/c17b.py", "serves_properties": ["C17"],
              "kind_free_text": "TLC model checking of MCQuiesce / MCRateLimit + TLC trace evaluation of the real quiesceState and InMemRateLimiter"},
             {"name": "tlc+smsim", "path": "/verif/lib/rsmchecks.py", "serves_properties": ["C05", "C08", "C07"],
